@@ -441,7 +441,13 @@ class BADS:
         LB_eff[np.isinf(lower_bounds)] = lower_bounds[np.isinf(lower_bounds)]
         UB_eff[np.isinf(upper_bounds)] = upper_bounds[np.isinf(upper_bounds)]
 
-        if np.any(LB_eff >= UB_eff):
+        # The effective bounds must lie strictly inside the hard bounds; if
+        # the margin is below floating-point resolution the hard bounds are
+        # numerically indistinguishable.
+        too_close = (np.isfinite(lower_bounds) & (LB_eff <= lower_bounds)) | (
+            np.isfinite(upper_bounds) & (UB_eff >= upper_bounds)
+        )
+        if np.any(LB_eff >= UB_eff) or np.any(too_close):
             raise ValueError(
                 """bads:StrictBoundsTooClose: Hard bounds lower_bounds and upper_bounds
                 are numerically too close. Make them more separate."""
